@@ -196,8 +196,15 @@ pub fn silence_case(ctx: &Ctx, own_timeout: u32, silent_from: u32) -> Vec<Viol> 
 
 /// `learning`: switch mode without claims - the routes of the silent node are addresses learned from its traffic
 pub fn silence_case_mode(ctx: &Ctx, own_timeout: u32, silent_from: u32, learning: bool) -> Vec<Viol> {
+    silence_case_adv(ctx, own_timeout, silent_from, learning, 0)
+}
+
+/// `advertise`: 0 nothing configured; 1 every node advertises the same private address (the same RFC 1918
+/// address in use on separate sites); 2 every node advertises an own distinct extra address; 3 the nodes advertise
+/// each other's socket address as well (stale / copied configuration)
+pub fn silence_case_adv(ctx: &Ctx, own_timeout: u32, silent_from: u32, learning: bool, advertise: u8) -> Vec<Viol> {
     ctx.eval();
-    let case = json!({"kind": "silence", "own_timeout": own_timeout, "silent_from": silent_from, "learning": learning});
+    let case = json!({"kind": "silence", "own_timeout": own_timeout, "silent_from": silent_from, "learning": learning, "advertise": advertise});
     let mut out = vec![];
     let mut sim: NetSim<Frame> = NetSim::new();
     for i in 0..3 {
@@ -211,6 +218,12 @@ pub fn silence_case_mode(ctx: &Ctx, own_timeout: u32, silent_from: u32, learning
             cfg.claims = vec![format!("10.{}.0.0/16", i + 1)];
         }
         cfg.peer_timeout = own_timeout;
+        match advertise {
+            1 => cfg.advertise_addresses = vec!["192.168.1.10:3210".to_string()],
+            2 => cfg.advertise_addresses = vec![format!("192.168.{}.10:3210", i + 1)],
+            3 => cfg.advertise_addresses = vec![crate::sim::sim_addr((i + 1) % 3).to_string()],
+            _ => {}
+        }
         sim.add_node(&cfg, false);
     }
     let (a1, a2) = (sim.addr(1), sim.addr(2));
@@ -220,6 +233,11 @@ pub fn silence_case_mode(ctx: &Ctx, own_timeout: u32, silent_from: u32, learning
     sim.settle();
     sim.run(silent_from as i64);
     if !sim.all_connected() {
+        if advertise == 3 {
+            // a node that claims another node's address as its own is a configuration the property does not cover
+            ctx.class("silence:setup-not-connected-with-copied-addresses");
+            return out;
+        }
         out.push(Viol::new("silence-setup", "mesh not connected before the silence".to_string(), case));
         return out;
     }
@@ -435,6 +453,19 @@ pub fn run(ctx: &Ctx) {
         ctx.report(v);
     });
     ctx.subspace("silence injection in switch mode: the silent node's routes are learned addresses (no claims)", sl.len() as u64, true);
+    let mut sa = vec![];
+    for adv in 1..=2u8 {
+        for (own, t) in [(120u32, 0u32), (120, 9), (300, 3), (300, 31)] {
+            for learning in [false, true] {
+                sa.push((own, t, learning, adv));
+            }
+        }
+    }
+    ctx.par_items(&sa, |_, (own, t, learning, adv)| {
+        let v = silence_case_adv(ctx, *own, *t, *learning, *adv);
+        ctx.report(v);
+    });
+    ctx.subspace("silence injection with advertised addresses: the same private address advertised by every node / a distinct extra address per node", sa.len() as u64, true);
 
     // (d) back-off
     let v = backoff_case(ctx, 48);
@@ -446,7 +477,7 @@ pub fn replay(ctx: &Ctx, case: &Value) {
     let v = match case["kind"].as_str() {
         Some("interval") => serde_json::from_value::<IntervalCase>(case["case"].clone()).map(|c| interval_case(ctx, &c)).unwrap_or_default(),
         Some("mesh") => serde_json::from_value::<MeshCase>(case["case"].clone()).map(|c| mesh_case(ctx, &c)).unwrap_or_default(),
-        Some("silence") => silence_case_mode(ctx, case["own_timeout"].as_u64().unwrap_or(300) as u32, case["silent_from"].as_u64().unwrap_or(0) as u32, case["learning"].as_bool().unwrap_or(false)),
+        Some("silence") => silence_case_adv(ctx, case["own_timeout"].as_u64().unwrap_or(300) as u32, case["silent_from"].as_u64().unwrap_or(0) as u32, case["learning"].as_bool().unwrap_or(false), case["advertise"].as_u64().unwrap_or(0) as u8),
         Some("backoff") => backoff_case(ctx, case["hours"].as_u64().unwrap_or(48) as u32),
         _ => vec![],
     };
